@@ -4,6 +4,6 @@ CHECKS['C01'] = dict(
     technique='exhaustive small-scope enumeration (sessions x NLRI shapes x next hops x <=k attribute deviations) of route text through the real parser, RIB and UPDATE encoder, decoded by an independent RFC reference decoder',
     text='53 negotiated sessions x 116 NLRI shapes (unicast, labeled, VPN; IPv4/IPv6; boundary masks; path ids; label stacks; RD types) x next hops (address, self, IPv6-for-IPv4) x attribute sets '
          '(default, every single deviation for all shapes, every pair - thorough: triple - for 5 core shapes over a 33-value alphabet of 13 keywords): about 6*10^5 cases quick; every next-hop-self case is also run with a second neighbor (other local address) served the same parsed route before / after the observed one, every fourth session through the configuration-file path, and every other session through the `announce <afi> <safi> <prefix> ...` grammar of the API (every shape with every single attribute deviation, pairs for the core shapes). '
-         'Each is rendered to text by the check, parsed by the real API parser, resolved, queued in a real OutgoingRIB, encoded by UpdateCollection.messages under a real Negotiated, and the bytes are decoded by vt/ref/wire.py and compared with the value the RFC rules give for (abstract route, session).',
+         'Each is rendered to text by the check, parsed by the real API parser, resolved, queued in a real OutgoingRIB, encoded by UpdateCollection.messages under a real Negotiated, and the bytes are decoded by vt/ref/wire.py and compared with the value the RFC rules give for (abstract route, session). Label stacks include two with a repeated value.',
     note='Trusted: vt/ref/wire.py and the expectation function in the check. Tolerances: attribute order, LOCAL_PREF given on eBGP absent or as given, as-path sent as given or with the local AS prepended, AIGP only when enabled. Outside: values not in the alphabets, >3 simultaneous attribute deviations, IPv6 transport sessions.',
 )
